@@ -17,10 +17,20 @@ def run(chk):
                 "implementation expected there, both chunk-dependent); non-trivial = selects a byte or fails; distinct by case text")
     run_corpus(chk)
     rng = chk.rng
-    L = 5 if chk.tier == "quick" else 7
+    L = 5 if chk.tier == "quick" else 6
     pool = BOUNDS if chk.tier == "thorough" else BOUNDS[:20]
     optsets = [{}, {"j": True}, {"j": True, "r": b"/"}, {"fb": b"G"}]
+
+    def oracle(lines, impl, base_idx):
+        for i, (l, a, bi) in enumerate(zip(lines, impl, base_idx)):
+            if bi is None or bi == i:
+                continue
+            if a != impl[bi]:
+                chk.report_oracle("-M output depends on how the input is split into reads",
+                                  {"case": l, "case_b": lines[bi], "this_segmentation": a, "one_segment": impl[bi]})
+
     cases, base_idx = [], []
+    sampled = False
     for inp in bytes_upto([b"a", b"-", b"\n", b"b"], L, 1):
         for b in pool:
             for o in optsets:
@@ -32,6 +42,15 @@ def run(chk):
                         c["j"] = True
                     cases.append(c)
                     base_idx.append(first)   # the first segmentation generated is the one-segment reader
+        if len(cases) > 1500000:
+            # evaluate in batches so that the thorough tier (15 M cases) never holds everything in memory
+            if not sampled:
+                for c in cases[5000:5003]:
+                    chk.sample(case_line(c))
+                sampled = True
+            lines, impl, _ = evaluate(chk, cases, "K-stream", spec=False)
+            oracle(lines, impl, base_idx)
+            cases, base_idx = [], []
     chk.exhaustive = False
     cnt = 3000 if chk.tier == "quick" else 40000
     for _ in range(cnt):
@@ -69,12 +88,7 @@ def run(chk):
         for segs in segmentations(len(inp)):
             cases.append({"kind": "cut", "eng": "stream", "d": b"-", "bv": "F(78);F(79);B(1,1,-);F(7a);F(77);B(2,2,-)", "in": inp, "seg": segs})
             base_idx.append(None)
-    for c in cases[5000:5003] + cases[-200:-198]:
+    for c in cases[-200:-198]:
         chk.sample(case_line(c))
     lines, impl, _ = evaluate(chk, cases, "K-stream", spec=False)
-    for i, (l, a, bi) in enumerate(zip(lines, impl, base_idx)):
-        if bi is None or bi == i:
-            continue
-        if a != impl[bi]:
-            chk.report_oracle("-M output depends on how the input is split into reads",
-                              {"case": l, "case_b": lines[bi], "this_segmentation": a, "one_segment": impl[bi]})
+    oracle(lines, impl, base_idx)
